@@ -257,6 +257,124 @@ def late_directive_level(ctx, corr):
                 corr.expect_fail('late-directive', inp, 'failed summary returned and rendered', ended, '; '.join(why))
 
 
+# ---------------------------------------------------------------------------------------------
+STREAM_SWAPS = {
+    # the doctest points sys.stdout somewhere else BY HAND (no context manager) and fails before its own restore line
+    'buffer': ['>>> import sys, io', '>>> keep = sys.stdout', '>>> sys.stdout = io.StringIO()'],
+    'closed': ['>>> import sys, io, os', '>>> keep = sys.stdout', '>>> fh = open(os.devnull, "w")', '>>> sys.stdout = fh', '>>> fh.close()'],
+    'samepart': ['>>> import sys, io', '>>> keep = sys.stdout; sys.stdout = io.StringIO()'],
+}
+STREAM_FAULTS = {
+    'exception': (['>>> raise ValueError("m%d" % t(0))'], 'ValueError'),
+    'called': (['>>> boom(t(0))'], 'KeyError'),
+    'wrong-output': (['>>> sys.stdout = keep', '>>> print(t(0))', 'not the output'], 'GotWantException'),
+}
+
+
+def stream_level(ctx, corr):
+    """a doctest that redirects sys.stdout by hand and FAILS before its own restore line: the failure must still be
+    recorded, returned and rendered into the stream that was sys.stdout when run() was called (verbosity 1..3), and
+    sys.stdout must be that stream again afterwards, so that the NEXT doctest is reported too"""
+    import contextlib
+    import io
+    import sys
+    import warnings as _w
+    from xdoctest import core
+    from ..gen import doctests as gd
+    for swap, pre in sorted(STREAM_SWAPS.items()):
+        for fault, (flines, tname) in sorted(STREAM_FAULTS.items()):
+            for split in (False, True):
+                for oe in ('return', 'raise'):
+                    for verbose in ((0, 2) if ctx.quick else (0, 1, 2, 3)):
+                        lines = list(pre)
+                        if split:
+                            lines += ['', 'prose between the parts', '']
+                        lines += flines + ['>>> sys.stdout = keep', '>>> print(t(1))']
+                        text = '\n'.join(lines) + '\n'
+                        inp = {'text': text, 'run': {'on_error': oe, 'verbose': verbose}, 'stream': True,
+                               'desc': {'swap': swap, 'fault': fault, 'split': split}}
+                        corr.count('stream')
+                        corr.nontriv(('stream', text, oe, verbose))
+                        why = _stream_case(text, oe, verbose, tname)
+                        corr.tag('stream:' + ('ok' if not why else 'bad'))
+                        if why:
+                            corr.expect_fail('stream', inp, 'failed summary (%s), report in the caller\'s stream, sys.stdout restored' % tname,
+                                             '; '.join(why)[:600], '; '.join(why))
+
+
+def _stream_case(text, oe, verbose, tname):
+    import contextlib
+    import io
+    import sys
+    import warnings as _w
+    from xdoctest import core
+    from ..gen import doctests as gd
+    why = []
+    with _w.catch_warnings():
+        _w.simplefilter('ignore')
+        exs = list(core.parse_docstr_examples(text, callname='t', style='freeform', fpath='<verif>', lineno=1))
+        nxt = list(core.parse_docstr_examples('>>> print(t(5))\n5\n', callname='n', style='freeform', fpath='<verif>', lineno=1))[0]
+    ex = exs[0]
+    ex.mode = nxt.mode = 'native'
+    ns, T = gd.make_namespace({})
+    ex.global_namespace = ns
+    ns2, T2 = gd.make_namespace({})
+    nxt.global_namespace = ns2
+    buf = io.StringIO()
+    before = sys.stdout
+    try:
+        with contextlib.redirect_stdout(buf):
+            mine = sys.stdout
+            try:
+                summary = ex.run(on_error=oe, verbose=verbose)
+                ended = 'returned'
+            except BaseException as e:   # noqa
+                summary, ended = None, 'raised %s: %s' % (type(e).__name__, str(e)[:80])
+            after = sys.stdout
+            sys.stdout = mine
+            # the next doctest of the session
+            try:
+                s2 = nxt.run(on_error='return', verbose=verbose)
+                ended2 = 'returned'
+            except BaseException as e:   # noqa
+                s2, ended2 = None, 'raised %s: %s' % (type(e).__name__, str(e)[:80])
+            after2 = sys.stdout
+            sys.stdout = mine
+    finally:
+        sys.stdout = before
+    out = buf.getvalue()
+    if after is not mine:
+        why.append('after run() sys.stdout is %s, not the stream it was before' % type(after).__name__)
+    if oe == 'return':
+        if summary is None:
+            why.append('run(on_error="return") %s' % ended)
+        elif not summary['failed']:
+            why.append('summary not marked failed')
+    elif summary is not None or not ended.startswith('raised ' + tname):
+        if not (summary is None and ended.startswith('raised')):
+            why.append('run(on_error="raise") %s' % ended)
+    if ex.exc_info is None:
+        why.append('no failure recorded on the doctest')
+    elif type(ex.exc_info[1]).__name__ != tname:
+        why.append('recorded %s, expected %s' % (type(ex.exc_info[1]).__name__, tname))
+    else:
+        try:
+            txt = '\n'.join(ex.repr_failure())
+            if tname not in txt:
+                why.append('failure report does not name %s' % tname)
+        except Exception as e2:
+            why.append('repr_failure() raised %r' % (e2,))
+    if T != [0]:
+        why.append('TRACE %r, expected [0]' % (T,))
+    if verbose >= 1 and oe == 'return' and '* FAILURE' not in out:
+        why.append('verbosity %d: the failure line was not written to the stream that was sys.stdout when run() was called' % verbose)
+    if s2 is None or not s2['passed'] or after2 is not mine:
+        why.append('the NEXT doctest: %s%s' % (ended2 if s2 is None else ('passed=%s' % s2['passed']), '' if after2 is mine else ', sys.stdout left replaced'))
+    elif verbose >= 1 and '* SUCCESS' not in out:
+        why.append('verbosity %d: the result line of the NEXT doctest did not reach the stream' % verbose)
+    return why
+
+
 def correspondence(ctx, corr):
     common.run_family(ctx, corr, 'c09_matrix', {'verbose': [0] if ctx.quick else [0, 1, 2, 3]})
     common.run_family(ctx, corr, 'c09_helper_sweep', {'verbose': [0] if ctx.quick else [0, 2], 'max_extra': 6 if ctx.quick else 12})
@@ -265,6 +383,7 @@ def correspondence(ctx, corr):
     corr.exhaustive = True
     running_loop_level(ctx, corr)
     late_directive_level(ctx, corr)
+    stream_level(ctx, corr)
     runner_level(ctx, corr)
 
 
@@ -301,6 +420,14 @@ def replay(ctx, failing):
         print(failing['input']['text'])
         print('now: %s' % (bad[0]['why'] if bad else 'a failed summary is returned and rendered'))
         return bool(bad)
+    if failing.get('input', {}).get('stream'):
+        inp = failing['input']
+        tname = STREAM_FAULTS[inp['desc']['fault']][1]
+        why = _stream_case(inp['text'], inp['run']['on_error'], inp['run']['verbose'], tname)
+        print(inp['text'])
+        print('run: %r' % (inp['run'],))
+        print('now: %s' % ('; '.join(why) if why else 'failure recorded, returned, reported in the caller\'s stream; sys.stdout restored; next doctest reported'))
+        return bool(why)
     if failing.get('input', {}).get('inside_running_loop'):
         import asyncio
         from ..corr import runloop
